@@ -294,3 +294,46 @@ func (e *Engine) needSample(h *Harness, label string) bool {
 	_, loaded := e.sampled.LoadOrStore(key, true)
 	return !loaded
 }
+
+// reflValue is the native model of a reflect.Value (only integer inspection is supported).
+type reflValue struct {
+	t types.Type
+	v value
+}
+
+func init() {
+	externals["reflect.ValueOf"] = func(fr *frame, a []value) value {
+		it := a[0].(iface)
+		return reflValue{it.t, it.v}
+	}
+	kindOf := func(v value) types.BasicKind {
+		rv := v.(reflValue)
+		if rv.t == nil {
+			return types.Invalid
+		}
+		return basicKind(rv.t)
+	}
+	externals["(reflect.Value).IsValid"] = func(fr *frame, a []value) value { return a[0].(reflValue).t != nil }
+	externals["(reflect.Value).CanInt"] = func(fr *frame, a []value) value {
+		k := kindOf(a[0])
+		return kindIsInt(k) && kindSigned(k)
+	}
+	externals["(reflect.Value).CanUint"] = func(fr *frame, a []value) value {
+		k := kindOf(a[0])
+		return kindIsInt(k) && !kindSigned(k)
+	}
+	externals["(reflect.Value).Int"] = func(fr *frame, a []value) value {
+		k := kindOf(a[0])
+		if !kindIsInt(k) || !kindSigned(k) {
+			panic(targetPanic{fr.i.runtimeError("reflect: call of reflect.Value.Int on non-int Value")})
+		}
+		return convNumeric(fr.i, types.Int64, k, a[0].(reflValue).v)
+	}
+	externals["(reflect.Value).Uint"] = func(fr *frame, a []value) value {
+		k := kindOf(a[0])
+		if !kindIsInt(k) || kindSigned(k) {
+			panic(targetPanic{fr.i.runtimeError("reflect: call of reflect.Value.Uint on non-uint Value")})
+		}
+		return convNumeric(fr.i, types.Uint64, k, a[0].(reflValue).v)
+	}
+}
